@@ -360,6 +360,15 @@ def table_checks(pid: list[int], what: str, rowkeys=None, base: int = 0):
     got = guarded("is_single_root", lambda: swc_utils.is_single_root(df))
     if bool(got) != exp:
         raise Bad("checker_wrong", "is_single_root", f"table {pid}: is_single_root = {got}, connected = {exp}")
+    if (n + len(what)) % 4 == 0:
+        # the same table under other column names, next to a decoy column that carries the default name `pid`
+        nm = swc_utils.SWCNames(id="n", type="kind", x="px", y="py", z="pz", r="radius", pid="parent")
+        dfc = df.rename(columns={"id": "n", "type": "kind", "x": "px", "y": "py", "z": "pz", "r": "radius", "pid": "parent"})
+        dfc["pid"] = -1  # raw / unrelated parents kept side by side
+        dfc["id"] = np.arange(n)
+        got = guarded("is_single_root", lambda: swc_utils.is_single_root(dfc, names=nm))
+        if bool(got) != table_model.connected(pid):
+            raise Bad("checker_wrong", "is_single_root", f"table {pid} under custom column names: is_single_root = {got}")
     exp = table_model.has_cycle(pid)
     got = guarded("has_cyclic", lambda: swc_utils.has_cyclic((ids.copy(), pids.copy())))
     if bool(got) != exp:
@@ -482,12 +491,20 @@ def forest_text(f: dict) -> str:
     lines = ["# generated forest"]
     for i in range(n):
         p = f["pid"][i]
+        if i and p == -1 and (n + i) % 2:
+            lines.append(f"# fragment starting at row {i}")  # a separator comment in front of a later root
+        if i and (3 * i + n) % 7 == 0:
+            lines.append("" if i % 2 else "   # a remark between two samples")
         lines.append(f"{sig[i] + b} {f['type'][i]} {f['x'][i]:.4f} {f['y'][i]:.4f} {f['z'][i]:.4f} {f['r'][i]:.4f} "
                      f"{-1 if p == -1 else sig[p] + b}")
     return "\n".join(lines) + "\n"
 
 
-def forest_frame(f: dict, int_xyz: bool = False):
+COL_ORDERS = [None, None, ["id", "pid", "type", "x", "y", "z", "r"], ["x", "y", "z", "r", "type", "id", "pid"],
+              ["pid", "r", "z", "y", "x", "type", "id"]]
+
+
+def forest_frame(f: dict, int_xyz: bool = False, col_order=None):
     import pandas as pd
 
     n = len(f["pid"])
@@ -496,7 +513,7 @@ def forest_frame(f: dict, int_xyz: bool = False):
     # int_xyz: coordinates in integer-typed columns (a table built from voxel indices); the generated coordinates are
     # multiples of 0.25, so four times them is exact
     cdt, mul = (np.int64, 4) if int_xyz else (np.float64, 1)
-    return pd.DataFrame({
+    df = pd.DataFrame({
         "id": np.array([b + sig[i] for i in range(n)], dtype=np.int64),
         "type": np.array(f["type"], dtype=np.int64),
         "x": np.array([v * mul for v in f["x"]], dtype=cdt),
@@ -505,6 +522,9 @@ def forest_frame(f: dict, int_xyz: bool = False):
         "r": np.array(f["r"], dtype=np.float64),
         "pid": np.array([-1 if p == -1 else sig[p] + b for p in f["pid"]], dtype=np.int64),
     })
+    if col_order:
+        df = df[col_order]  # the same table with its columns in another order (as a CSV export may have them)
+    return df
 
 
 def judge_frame(f: dict, rows: dict, op: str, *, repaired: bool, id_shift, relabelled: bool):
@@ -593,7 +613,10 @@ def run_roots(program: dict, world: World, out: dict):
             fj = f if not int_xyz else dict(f, x=[v * 4 for v in f["x"]], y=[v * 4 for v in f["y"]], z=[v * 4 for v in f["z"]])
             if int_xyz:
                 world.probe("c18.integer_typed_coordinates")
-            df = forest_frame(f, int_xyz)
+            order = COL_ORDERS[(2 * n + ri) % len(COL_ORDERS)]
+            if order:
+                world.probe("c18.columns_in_another_order")
+            df = forest_frame(f, int_xyz, order)
             if ri % 2 == 0:
                 # diagnose first (as read_swc does after a read), then repair, then diagnose the repaired table
                 guarded("is_single_root", lambda: swc_utils.is_single_root(df))
@@ -619,7 +642,7 @@ def run_roots(program: dict, world: World, out: dict):
                           f"after {op} on a diagnosed forest of {k} roots: is_single_root(result) = {again}")
             if repaired and ri % 3 == 0:
                 # the in-place flavour on a frame that was diagnosed before
-                df2 = forest_frame(f, int_xyz)
+                df2 = forest_frame(f, int_xyz, order)
                 guarded("is_single_root", lambda: swc_utils.is_single_root(df2))
                 inplace = swc_utils.mark_roots_as_somas_ if fix == "somas" else swc_utils.link_roots_to_nearest_
                 guarded(op + "_", lambda: inplace(df2))
